@@ -141,6 +141,13 @@ def tryConvertInt : Key → Key
 
 /-! ### split / filter / merge / diff -/
 
+/-- a plain type filter (`filterlib.OfType(T)`, what `to_predicate` makes of a class): it holds when `T` is the
+leaf's variable type **or any of its base classes** — `typesOf a` is the list of class names in the MRO of the
+leaf's type (`isinstance(x, T) or issubclass(x.type, T)`). Type filters are therefore not disjoint tags:
+`Variable ⊇ Param ⊇ LoRAParam`. -/
+def ofType (typesOf : α → List String) (t : String) : SPath → α → Bool :=
+  fun _ a => decide (t ∈ typesOf a)
+
 /-- index of the first predicate that holds; `preds.length` when none does -/
 def firstIdx (preds : List (SPath → α → Bool)) (p : SPath) (a : α) : Nat :=
   match preds with
